@@ -161,7 +161,13 @@ def _hyp(mod, tier, hseed, n, st):
 # --------------------------------------------------------------------------- minimiser
 def _candidates(x):
     """smaller variants of a JSON value (one edit each), most aggressive first"""
-    if isinstance(x, list):
+    if isinstance(x, list) and x and isinstance(x[0], str):
+        # a tagged tuple such as ["t", 0, "-q"] or ["flip", 12, 3]: keep its shape, shrink the numbers only
+        for i in range(1, len(x)):
+            if isinstance(x[i], (int, float)) and not isinstance(x[i], bool):
+                for c in _candidates(x[i]):
+                    yield x[:i] + [c] + x[i + 1 :]
+    elif isinstance(x, list):
         n = len(x)
         if n > 3:
             yield x[: n // 2]
@@ -187,6 +193,9 @@ def _candidates(x):
                 yield 1
             if x > 3:
                 yield x // 2
+    elif isinstance(x, float):
+        if x > 0.01:
+            yield 0.01
 
 
 def minimise(mod, case, clause, budget):
